@@ -208,6 +208,7 @@ def gen_query(rng, n, tier):
         c['qtrack'] = [pt() for _ in range(rng.randint(2, 4))]
         c['units'] = [rng.choice([0, 1, 2, 3]) for _ in c['points']]
         c['dists'] = [rng.choice([0, 0.25, 0.5, 1, 1.5, 2, 3.75]) for _ in range(3)]
+        c['probe'] = rng.random() < 0.3
         out.append(c)
     return out
 
@@ -216,8 +217,16 @@ def run_query(case):
     from tracklib.core import ENUCoords
     si = build_index(case)
     E = lambda p: ENUCoords(p[0], p[1], 0)
+    if case.get('probe'):
+        # one probe object swept across the map: moved in place (setX / setY) between queries instead of a fresh coordinate per query
+        probe = ENUCoords(0.0, 0.0, 0)
+        def EP(p, probe=probe):
+            probe.setX(p[0]); probe.setY(p[1])
+            return probe
+    else:
+        EP = E
     return {'csize': si.csize, 'lsize': si.lsize,
-            'pt': [[int(v) for v in si.request(E(p))] for p in case['points']],
+            'pt': [[int(v) for v in si.request(EP(p))] for p in case['points']],
             'seg': [[int(v) for v in si.request([E(a), E(b)])] for a, b in case['segs']],
             'trk': [int(v) for v in si.request(mk(case['qtrack']))],
             'nb': [sorted(int(v) for v in si.neighborhood(E(p), unit=u)) for p, u in zip(case['points'], case['units'])],
